@@ -152,7 +152,13 @@ func (g *gogen) expr(d int) string {
 		return "func" + g.signature(d+1) + " " + g.block(g.maxS-1, d+1)
 	case 13: // composite literals
 		t := g.typ(d + 1)
-		switch g.pick(6) {
+		switch g.pick(9) {
+		case 6: // keys in the order of their text (which is Dict's order), not of their value
+			return "map[int]" + t + "{1: " + g.expr(d+1) + ", 10: " + g.expr(d+1) + ", 2: " + g.expr(d+1) + "}"
+		case 7:
+			return "[...]" + t + "{100: x, 1000: x, 200: x, 30: x, 404: x, 5: " + g.expr(d+1) + "}"
+		case 8: // identifiers, strings and runes as keys, in text order
+			return "map[any]" + t + "{\"B\": x, \"a\": x, 'c': x, A: x, _b: " + g.expr(d+1) + ", a1: x}"
 		case 0:
 			return t + "{}"
 		case 1:
@@ -691,7 +697,61 @@ var ggRealNames = map[string]string{"fmt": "fmt", "math/rand": "rand"}
 
 func ggRealName(p string) string { return ggRealNames[p] }
 
+// c01Deep: programs that are deep or long rather than varied - chains of else-if, nested calls,
+// parentheses, blocks, function literals, composite literals and selector / operand chains of
+// 25 * 2^k links.
+func c01Deep(r *ev.Recorder) {
+	rep := strings.Repeat
+	shapes := []struct {
+		name string
+		mk   func(n int) string
+	}{
+		{"else-if chain", func(n int) string {
+			var sb strings.Builder
+			sb.WriteString("func f(x int) int {\n\tif x == 0 {\n\t\treturn 0\n\t}")
+			for i := 1; i <= n; i++ {
+				fmt.Fprintf(&sb, " else if x == %d {\n\t\treturn %d\n\t}", i, i)
+			}
+			sb.WriteString(" else {\n\t\treturn -1\n\t}\n}")
+			return sb.String()
+		}},
+		{"nested calls", func(n int) string { return "var v = " + rep("f(", n) + "x" + rep(")", n) }},
+		{"nested parentheses", func(n int) string { return "var v = " + rep("(", n) + "x + 1" + rep(")", n) + " * 2" }},
+		{"nested blocks", func(n int) string { return "func f() {\n" + rep("{\n", n) + "x++\n" + rep("}\n", n) + "}" }},
+		{"nested if", func(n int) string { return "func f() {\n" + rep("if x {\n", n) + "x = !x\n" + rep("}\n", n) + "}" }},
+		{"nested function literals", func(n int) string { return "var v = " + rep("func() any { return ", n) + "x" + rep(" }", n) }},
+		{"nested composite literals", func(n int) string { return "var v = " + rep("[]any{", n) + "x" + rep("}", n) }},
+		{"nested index expressions", func(n int) string { return "var v = " + rep("a[", n) + "0" + rep("]", n) }},
+		{"operand chain", func(n int) string { return "var v = x" + rep(" + y*z", n) }},
+		{"selector and call chain", func(n int) string { return "var v = b" + rep(".With(x).F", n) }},
+		{"pointer and slice type nesting", func(n int) string { return "var v " + rep("*[]", n) + "int" }},
+		{"unary operator pile", func(n int) string { return "var v = " + rep("-^", n) + "x" }},
+		{"nested switch", func(n int) string {
+			return "func f() {\n" + rep("switch x {\ncase 1:\n", n) + "x++\n" + rep("}\n", n) + "}"
+		}},
+	}
+	for _, sh := range shapes {
+		for n := 25; n <= 800; n *= 2 {
+			src := "package p\n\n" + sh.mk(n) + "\n"
+			b := roundTrip("deep.go", []byte(src), ggRealName, a2j.Hooks{})
+			r.Eval(1)
+			desc := fmt.Sprintf("%s of %d links", sh.name, n)
+			if b.Kind == "ok" {
+				r.Distinct("deep:" + desc)
+			}
+			if b.Kind == "skip-unparseable" {
+				break // beyond what go/parser itself accepts: not a Go source file any more
+			}
+			if b.violation() || b.Kind != "ok" {
+				r.Violate(ev.Violation{Signature: "c01:deep:" + sh.name + ":" + b.Kind, What: desc + ": " + b.Kind + ": " + jhShort(b.Detail, 300), Case: ev.JSON(c01Case{Kind: "save", Desc: desc}), Detail: jhShort(b.Detail, 3000)})
+				break
+			}
+		}
+	}
+}
+
 func c01Generated(r *ev.Recorder) {
+	c01Deep(r)
 	dev := 3
 	if r.Tier == ev.Thorough {
 		dev = 4
